@@ -28,6 +28,8 @@ DAILY_PROFILES = {
     "legacy-season": ("legacy", {"season": SOUTH, "weekday_weekend": {"friday": "weekend"}}),
     "current-season": ("current", {"season": SOUTH, "weekday_weekend": {"friday": "weekend", "sunday": "weekday"}}),
     "current-unc": ("current", {"uncertainty_alpha": 0.2}),
+    # a building without cooling: the fit is heating-only (hdd_tidd: negative stored hdd_beta)
+    "legacy-heating": ("legacy", {"developer_mode": True, "silent_developer_mode": True, "full_model": "c_hdd_tidd"}),
     # a re-mapped weekday with usage that follows the map: the fit separates weekday and weekend sub-models
     "current-weekday": ("current", {"weekday_weekend": {"friday": "weekend", "monday": "weekend"}}),
 }
@@ -119,7 +121,9 @@ def job_daily(job):
     tz = c01lib.tz_of(spec)
     noise = rng.choice([0.03, 0.03, 0.6])              # 0.6: a poor fit -> CVRMSE disqualification stored in the model
     weekend = rng.choice([1.0, 1.4])
-    df = fitlib.daily_frame(rng, tz=tz, noise=noise, weekend=weekend, bh=rng.choice([1.2, 0.0, 0.6]), bc=rng.choice([0.8, 0.0]))
+    heating = job["profile"].endswith("heating")
+    df = fitlib.daily_frame(rng, tz=tz, noise=0.03 if heating else noise, weekend=1.0 if heating else weekend,
+                            bh=1.2 if heating else rng.choice([1.2, 0.0, 0.6]), bc=0.0 if heating else rng.choice([0.8, 0.0]))
     rep = fitlib.daily_frame(rng, tz=tz, start="2023-01-01", ndays=rng.choice([90, 200]))
     if st and "weekday_weekend" in st and job["profile"] == "current-weekday":
         # usage follows the model's own day map (Fri-Mon weekend), so that the wd/we split is the one selected
